@@ -392,7 +392,9 @@ func (u *unitCtx) wideStmt(level int) {
 		ci := rapid.SampledFrom(c).Draw(t, "resourceClass")
 		rv := u.freshLocal()
 		w.S("try (" + u.g.sigs[ci].name + " " + rv + " = ")
+		u.pending = rv // the resource is in scope inside its own initializer
 		u.newExpr(level, 1, ci)
+		u.pending = ""
 		w.S(") {")
 		u.scope = append(u.scope, varInfo{name: rv, kind: "local", typ: u.g.sigs[ci].name, cls: ci})
 		u.blockWithReturn(level+1, "")
